@@ -108,7 +108,7 @@ let () =
                (match f with FState -> "state" | FColvar -> "colvar" | FBias b -> "b" ^ string_of_int (int_of_z b)) ^ "@" ^ string_of_int (int_of_z it)) w))
          | "RUNAVEV" ->
            let kind = (match next () with
-               | "scalar" -> KScalar | "periodic" -> let p = nf () in KPeriodic (p, 0.0) | "vector3" -> KVector3 | _ -> KUnit3) in
+               | "scalar" -> KScalar | "periodic" -> let p = nf () in KPeriodic (p, 0.0) | "vector3" -> KVector3 | "quat" -> KQuat | _ -> KUnit3) in
            let l = nn () in let stride = nn () in let it0 = nn () in let dim = ni () in let n = ni () in
            let h = List.init n (fun _ -> let t = nn () in let x = List.init dim (fun _ -> nf ()) in (t, x)) in
            let r = runaveV_run fops (lv_ops fops kind) l stride it0 rv0 None h in
